@@ -88,6 +88,7 @@ def concrete_run(unit, values):
         res['outcome'] = describe_exc(exc)
         res['exc'] = ''.join(traceback.format_exception(exc, limit=-6))
     res['failed'] = [{'name': f.name, 'sig': f.sig, 'info': f.info} for f in ctx.failed]
+    res['passed'] = ctx.passed
     res['covers'] = sorted(ctx.covers)
     res['notes'] = plain(ctx.notes)
     return res
@@ -168,6 +169,8 @@ def run_unit(modname, tier, unit_name, seed):
         if rc is not None:
             r = rc.run(unit_name, values)
             res['replayed'] += 1
+            res['witness_obligations'] = res.get('witness_obligations', 0) + r.get('passed', 0) + len(r['failed'])
+            res['witness_discharged'] = res.get('witness_discharged', 0) + r.get('passed', 0)
             sym_failed = sorted(f.name for f in ctx.failed)
             same = (r['outcome'] == outcome and r['covers'] == sorted(ctx.covers) and not r['aborted'])
             symnames = set(f.name for f in ctx.failed)
@@ -193,6 +196,8 @@ def run_unit(modname, tier, unit_name, seed):
                     r = rc.run(unit_name, hv)
                     res['replayed'] += 1
                     res['preferred_witnesses'] = res.get('preferred_witnesses', 0) + 1
+                    res['witness_obligations'] = res.get('witness_obligations', 0) + r.get('passed', 0) + len(r['failed'])
+                    res['witness_discharged'] = res.get('witness_discharged', 0) + r.get('passed', 0)
                     for x in r['failed']:
                         if x['name'] not in symnames and not r['aborted']:
                             res['violations'].append({'unit': unit_name, 'check': x['name'], 'sig': x['sig'], 'info': x['info'],
